@@ -29,6 +29,10 @@ run "BitFieldVec::get_unchecked: mask applied first in one-word case" C05 src/bi
 run "Rank9::rank_unchecked-like: BitVec::count_ones unchanged, pop with early return style" C06 src/bits/bit_vec.rs 's=s.replace("    pub fn pop(&mut self) -> Option<bool> {\n        if self.len == 0 {\n            return None;\n        }","    pub fn pop(&mut self) -> Option<bool> {\n        if self.is_empty_len() {\n            return None;\n        }",1) if False else s.replace("        if self.len == 0 {\n            return None;\n        }","        if 0 == self.len {\n            return None;\n        }",1)'
 run "rcl get_in_place: offset computed before block" C09 src/dict/rear_coded_list.rs 's=s.replace("        let block = index / self.k;\n        let offset = index % self.k;\n\n        let start = self.pointers.as_ref()[block];","        let offset = index % self.k;\n        let block = index / self.k;\n\n        let start = self.pointers.as_ref()[block];",1)'
 run "shard_edge: edge_1 unchanged, FuseLge3Shards::shard with explicit parentheses" C16 src/func/shard_edge.rs 's=s.replace("sig[0] >> self.shard_bits_shift >> 1","((sig[0] >> self.shard_bits_shift) >> 1)",1)'
+run "edge_2: xor written as x = x ^ m, mask operands swapped" C16 src/func/shard_edge.rs 's=s.replace("        let mut v1 = v0 + segment_size;\n        v1 ^= (sig[1] >> 32) as usize & segment_mask;\n        let mut v2 = v1 + segment_size;\n        v2 ^= sig[1] as u32 as usize & segment_mask;\n        [v0, v1, v2]\n    }\n\n    impl FuseLge3Shards","        let mut v1 = v0 + segment_size;\n        v1 = v1 ^ (segment_mask & (sig[1] >> 32) as usize);\n        let mut v2 = segment_size + v1;\n        v2 ^= sig[1] as u32 as usize & segment_mask;\n        [v0, v1, v2]\n    }\n\n    impl FuseLge3Shards",1)'
+run "edge_1: start computed with the addition commuted" C16 src/func/shard_edge.rs 's=s.replace("        let start = (shard * (l as usize + 2)) << log2_seg_size;\n        let v0 = start + fixed_point_inv_128!(sig[0], (l as u64) << log2_seg_size);","        let start = ((2 + l as usize) * shard) << log2_seg_size;\n        let v0 = fixed_point_inv_128!(sig[0], (l as u64) << log2_seg_size) + start;",1)'
+run "Rank9 rank_unchecked: unchanged semantics, word index via shift" C01 src/rank_sel/rank9.rs 's=s.replace("let word_pos = pos / usize::BITS as usize;","let word_pos = pos >> 6;",1) if "let word_pos = pos / usize::BITS as usize;" in s else s.replace("pos / 64","pos >> 6",1)'
+run "EliasFano succ_unchecked-like: get with explicit parentheses" C03 src/dict/elias_fano.rs 's=s.replace("        let high_bits = self.high_bits.select_unchecked(index) - index;\n        let low_bits = self.low_bits.get_unchecked(index);","        let low_bits = self.low_bits.get_unchecked(index);\n        let high_bits = self.high_bits.select_unchecked(index) - index;",1)'
 run "rcl push: swap order of clear/extend of last_str with len increment" C09 src/dict/rear_coded_list.rs 's=s.replace("        self.last_str.clear();\n        self.last_str.extend_from_slice(string.as_bytes());\n        self.len += 1;","        self.len += 1;\n        self.last_str.clear();\n        self.last_str.extend_from_slice(string.as_bytes());")'
 run "lenders next: match arms reordered" C20 src/utils/lenders.rs 's=s.replace("        Err(e) => Some(Err(e)),\n        Ok(0) => None,","        Ok(0) => None,\n        Err(e) => Some(Err(e)),")'
 git -C /repo worktree remove --force $SCR/repo; rm -rf $SCR
